@@ -72,3 +72,50 @@ Print Assumptions C03_family_displacement.
 Print Assumptions C03_family_pgate.
 Print Assumptions C03_family_loss.
 Print Assumptions C03_fourier_not_mergeable.
+
+(* The WHOLE optimiser (all wires, then re-linearisation): for any command list whose commands are distinct objects
+   sitting on at least one wire, and ANY list [out] of distinct commands whose per-wire projections are the
+   per-wire results of the merging loop (what grid_to_DAG / DAG_to_list return, in whatever order the topological
+   sort chooses), the ordered composition of [out] equals that of the input — in any monoid of physical maps in
+   which commands without a common wire commute and every merge returns "other * self". *)
+From SFV Require Import Base.Reorder C03.Global.
+Theorem C03_optimize_circuit_sound :
+  forall (K : Type) (kadd kmul : K -> K -> K) (kopp : K -> K) (is_zero is_one : K -> bool)
+         (M : Type) (mul : M -> M -> M) (e : M),
+  (forall x y z, mul x (mul y z) = mul (mul x y) z) -> (forall x, mul x e = x) ->
+  forall sem : op K -> M,
+  (forall a b, independent (op K) odeps a b -> mul (sem b) (sem a) = mul (sem a) (sem b)) ->
+  merge_sound kadd kmul kopp is_zero is_one M mul e sem ->
+  forall ls out,
+  NoDup (map oid ls) -> (forall c, In c ls -> odeps c <> []) ->
+  NoDup out -> (forall c, In c out -> odeps c <> []) ->
+  (forall w, optimize_wire kadd kmul kopp is_zero is_one (wire (op K) odeps ls w) = Some (wire (op K) odeps out w)) ->
+  sem_list (op K) M mul e sem out = sem_list (op K) M mul e sem ls.
+Proof.
+  intros K kadd kmul kopp iz io M mul e A R sem C MS ls out.
+  exact (optimize_circuit_sound kadd kmul kopp iz io M mul e A R sem C MS ls out).
+Qed.
+Print Assumptions C03_optimize_circuit_sound.
+
+(* non-vacuity: a five-command, two-wire program with a two-mode gate between mergeable rotations and one of its
+   optimised linearisations meet every hypothesis on ls / out *)
+Module C03_Example.
+Import QArith.
+Local Open Scope nat_scope.
+Definition R (x : Q) (m id : nat) : op Q := mkOp KGate 1 x [] false 1 [m] [m] id.
+Definition BS (id : nat) : op Q := mkOp KOther 9 (0 # 1)%Q [] false 2 [0; 1] [0; 1] id.
+Definition ls : list (op Q) := [R (1 # 2) 0 0; R (1 # 5) 1 1; R (1 # 4) 0 2; BS 3; R (1 # 3) 1 4; R (-1 # 3) 1 5].
+Definition out : list (op Q) := [R (1 # 5) 1 1; R ((1 # 2) + (1 # 4)) 0 0; BS 3].
+Example C03_optimize_circuit_hypotheses_met :
+  NoDup (map oid ls) /\ (forall c, In c ls -> odeps c <> []) /\ NoDup out /\ (forall c, In c out -> odeps c <> []) /\
+  (forall w, optimize_wireQ (wire (op Q) odeps ls w) = Some (wire (op Q) odeps out w)).
+Proof.
+  split; [|split; [|split; [|split]]].
+  - simpl. repeat constructor; simpl; intuition discriminate.
+  - intros c H. simpl in H. intuition (subst; discriminate).
+  - unfold out. repeat constructor; simpl; intuition discriminate.
+  - intros c H. simpl in H. intuition (subst; discriminate).
+  - intros [|[|w]]; reflexivity.
+Qed.
+End C03_Example.
+Print Assumptions C03_Example.C03_optimize_circuit_hypotheses_met.
